@@ -78,6 +78,21 @@ type lossCase struct {
 	NA, NB int    // chunk counts of A and B (NB = -1: no overwrite)
 	Mask   int    // bit 0 = metadata, bit i+1 = chunk i
 	Read   string // get | gat | append | prepend
+	// Lose lists further lost entries by chunk index (-1 = metadata): values with more chunks than
+	// a mask has bits
+	Lose []int `json:",omitempty"`
+}
+
+func (lc lossCase) lost(i int) bool {
+	for _, x := range lc.Lose {
+		if x == i {
+			return true
+		}
+	}
+	if i < 0 {
+		return lc.Mask&1 != 0
+	}
+	return i < 60 && lc.Mask&(2<<uint(i)) != 0
 }
 
 func buildLoss(lc lossCase) (ChunkScenario, func(r HRes) (string, string), int) {
@@ -102,11 +117,11 @@ func buildLoss(lc lossCase) (ChunkScenario, func(r HRes) (string, string), int) 
 			n = lc.NB
 		}
 	}
-	if lc.Mask&1 != 0 {
+	if lc.lost(-1) {
 		ops = append(ops, wire.Op{Kind: "evict", Key: key + "-meta"})
 	}
 	for i := 0; i < n; i++ {
-		if lc.Mask&(2<<uint(i)) != 0 {
+		if lc.lost(i) {
 			ops = append(ops, wire.Op{Kind: "evict", Key: key + "-" + strconv.Itoa(i)})
 		}
 	}
@@ -175,6 +190,44 @@ func runC05(c *rt.Ctx) {
 					for _, f := range fs {
 						c.Violation(f.Sig, f.What, sc)
 					}
+				}
+			}
+		}
+	}
+	// values of many chunks (chunk counts around powers of two, 100 and the byte boundary): every
+	// single lost chunk, and the first and last chunk of every window of 8 together with one further
+	// chunk, then each kind of read
+	many := []int{7, 31, 32, 33, 64, 65, 100, 101}
+	if c.Thorough() {
+		many = append(many, 8, 16, 17, 34, 63, 99, 127, 128, 129, 255, 256, 257)
+	}
+	for _, n := range many {
+		var cases [][]int
+		for i := 0; i < n; i++ {
+			cases = append(cases, []int{i})
+		}
+		for i := 0; i+8 < n; i += 8 {
+			cases = append(cases, []int{i, n - 1}, []int{i + 7, 0})
+		}
+		for _, lose := range cases {
+			item++
+			if !c.Mine(item) {
+				continue
+			}
+			if c.Expired() {
+				return
+			}
+			for _, rd := range []string{"get", "gat", "append"} {
+				lc := lossCase{NA: n, NB: -1, Read: rd, Lose: lose}
+				var fs []Finding
+				var sc ChunkScenario
+				InBubble(c.T, func() { fs, _, sc = runLoss(lc) })
+				c.Eval(1)
+				c.Trace(1)
+				c.Distinct(fmt.Sprint(lc))
+				c.Nontrivial(fmt.Sprint(lc))
+				for _, f := range fs {
+					c.Violation(f.Sig+" many-chunks", f.What, sc)
 				}
 			}
 		}
